@@ -54,6 +54,7 @@ extern void ledger_call_begin(long) __attribute__((weak));
 extern void ledger_call_end(void) __attribute__((weak));
 extern void ledger_forget(void) __attribute__((weak));
 extern int ledger_dump_live(char *, size_t) __attribute__((weak));
+extern int ledger_open __attribute__((weak));
 extern long ledger_live __attribute__((weak));
 extern long ledger_live_bytes __attribute__((weak));
 extern long ledger_peak_bytes __attribute__((weak));
@@ -69,8 +70,9 @@ static long g_case = -1;
 static int g_wd = 20;
 static FILE *g_null;
 
+static long g_live_before;
 static void lib_begin(void) {
-    if(HAVE_LEDGER) ledger_call_begin(g_oom);
+    if(HAVE_LEDGER) { g_live_before = ledger_live; ledger_call_begin(g_oom); }
     errno = 0;
 }
 static void lib_end(void) {
@@ -81,6 +83,17 @@ static void lib_end(void) {
 /* slots */
 #define NSLOTS 24
 static struct slot { void *ptr; asn_TYPE_descriptor_t *td; } slots[NSLOTS];
+
+/* byte registers: encoder output kept for a later decode (chains) */
+#define NREGS 8
+static struct reg { unsigned char *b; size_t n; int valid; } regs[NREGS];
+static void reg_store(long r, const void *b, size_t n) {
+    if(r < 0 || r >= NREGS) return;
+    free(regs[r].b);
+    regs[r].b = malloc(n ? n : 1);
+    if(n) memcpy(regs[r].b, b, n);
+    regs[r].n = n; regs[r].valid = 1;
+}
 
 /* ------------------------------------------------------------------ */
 /* helpers */
@@ -411,8 +424,12 @@ static int cb_collect(const void *data, size_t size, void *keyp) {
     k->calls++;
     if(k->len + size > k->cap) {
         size_t nc = k->cap ? k->cap * 2 : 256;
+        int save = 0;
         while(nc < k->len + size) nc *= 2;
+        /* the collector's own buffer is not a library allocation */
+        if(HAVE_LEDGER) { save = ledger_open; ledger_open = 0; }
         k->buf = realloc(k->buf, nc); k->cap = nc;
+        if(HAVE_LEDGER) ledger_open = save;
     }
     /* read every byte handed to us (ASan checks the source range) */
     if(size) memcpy(k->buf + k->len, data, size);
@@ -423,7 +440,8 @@ static int cb_collect(const void *data, size_t size, void *keyp) {
 /* ------------------------------------------------------------------ */
 static void print_ledger(FILE *o) {
     if(HAVE_LEDGER) {
-        fprintf(o, " peak=%ld maxreq=%zu nalloc=%ld", ledger_peak_bytes, ledger_max_request, ledger_alloc_seq);
+        fprintf(o, " peak=%ld maxreq=%zu nalloc=%ld dlive=%ld", ledger_peak_bytes, ledger_max_request, ledger_alloc_seq,
+                ledger_live - g_live_before);
         if(g_oom > 0) fprintf(o, " oomfired=%ld oomsite=%p", ledger_fail_fired, ledger_fail_site);
     }
 }
@@ -771,6 +789,7 @@ int main(int argc, char **argv) {
         if(!strcmp(op, "E")) {
             int i;
             for(i = 0; i < NSLOTS; i++) free_slot(&slots[i]);
+            for(i = 0; i < NREGS; i++) { free(regs[i].b); regs[i].b = 0; regs[i].valid = 0; regs[i].n = 0; }
             arm_watchdog(0);
             if(HAVE_LEDGER) {
                 char lv[128] = "";
@@ -790,6 +809,13 @@ int main(int argc, char **argv) {
         }
         if(!strcmp(op, "srand")) {
             srandom((unsigned)argl(kv, n, "seed", 1));
+            continue;
+        }
+        if(!strcmp(op, "setreg")) {
+            size_t nn; unsigned char *bb = unhex(arg(kv, n, "in"), &nn);
+            reg_store(argl(kv, n, "r", 0), bb, nn);
+            free(bb);
+            fprintf(o, "R setreg n=%zu\n", nn);
             continue;
         }
         if(!strcmp(op, "list")) {
@@ -814,7 +840,15 @@ int main(int argc, char **argv) {
                 slots[s].td = td;
             }
             if(!slots[s].td) { fprintf(o, "R dec error=notype\n"); continue; }
-            inb = unhex(arg(kv, n, "in"), &inn);
+            if(arg(kv, n, "inreg")) {
+                long r = argl(kv, n, "inreg", 0);
+                if(r < 0 || r >= NREGS || !regs[r].valid) { fprintf(o, "R dec error=noreg\n"); continue; }
+                inn = regs[r].n;
+                inb = malloc(inn ? inn : 1);
+                if(inn) memcpy(inb, regs[r].b, inn);
+            } else {
+                inb = unhex(arg(kv, n, "in"), &inn);
+            }
             a.syn = syntax_of(arg(kv, n, "syn"), 1);
             a.td = slots[s].td; a.sptr = &slots[s].ptr; a.in = inb; a.n = inn;
             a.chunks = arg(kv, n, "chunks"); a.rest = (int)argl(kv, n, "rest", 1);
@@ -892,6 +926,11 @@ int main(int argc, char **argv) {
                 if(quiet) fprintf(o, "q"); else puthex(o, k.buf, k.len);
                 print_ledger(o);
                 fprintf(o, "\n");
+                if(arg(kv, n, "reg")) {
+                    long r = argl(kv, n, "reg", 0);
+                    if(er.encoded >= 0) reg_store(r, k.buf, k.len);
+                    else if(r >= 0 && r < NREGS) regs[r].valid = 0;
+                }
                 free(k.buf);
             }
             g_oom = -1;
@@ -903,6 +942,7 @@ int main(int argc, char **argv) {
             if(a < 0 || b < 0 || a >= NSLOTS || b >= NSLOTS || !slots[a].td || slots[a].td != slots[b].td) {
                 fprintf(o, "R cmp error=badslots\n"); continue;
             }
+            if(!slots[a].ptr || !slots[b].ptr) { fprintf(o, "R cmp error=empty\n"); continue; }
             lib_begin();
             r = slots[a].td->op->compare_struct(slots[a].td, slots[a].ptr, slots[b].ptr);
             lib_end();
